@@ -108,7 +108,7 @@ def _case(rng, n, reg):
   if rng.random() < 0.5:
     geos.append(['hand', _hand_geometry(rng, n, sizes=(2, 4))])
   return {'x': x, 'y': y, 'dom': dom, 'w': w, 'b': b, 'w2': [w[0] + rng.choice([-2, 1, 3]), w[1] - 1], 'b2': b + rng.choice([-1, 2]),
-          'reg': bool(reg), 'split': rng.randrange(0, n + 1), 'geos': geos}
+          'reg': reg if reg == 'cw' else bool(reg), 'split': rng.randrange(0, n + 1), 'geos': geos}
 
 
 HYP_REGS = {'none': None, 'l2': Fraction(1, 4), 'l2b': Fraction(1)}
@@ -129,7 +129,7 @@ def _hyp_case(rng, order):
   return c
 
 
-ALGO_PATTERNS = ['empty1', 'empty2', 'empty-then-empty', 'mixed', 'normal', 'no-clients']
+ALGO_PATTERNS = ['empty1', 'empty2', 'empty-then-empty', 'mixed', 'normal', 'no-clients', 'uneven']
 ALGO_PATTERNS_MORE = ['empty3', 'single', 'all', 'mixed-tail', 'normal-then-empty', 'single-then-all', 'normal-then-no-clients']
 
 
@@ -142,9 +142,10 @@ def _algo_case(rng, pattern, reg):
     c['dom'] = [rng.choice([0, 1]) for _ in range(9)]   # a domain without any example
   r1 = {'empty1': [[]], 'empty2': [[], []], 'empty-then-empty': [[]], 'mixed': [[], a, []], 'normal': [a, b],
         'empty3': [[], [], []], 'single': [cc], 'all': [a, b, cc], 'mixed-tail': [a, b, []],
-        'normal-then-empty': [b, a], 'single-then-all': [b], 'no-clients': [], 'normal-then-no-clients': [a, cc]}[pattern]
+        'normal-then-empty': [b, a], 'single-then-all': [b], 'no-clients': [], 'normal-then-no-clients': [a, cc],
+        'uneven': [a, [3], [4]]}[pattern]   # 1-row clients: shuffle_repeat_batch(3) repeats the row, one step, weight 1 vs 3
   r2 = {'empty-then-empty': [[], []], 'mixed': [b, [], cc], 'empty3': [a], 'all': [cc, [], a], 'normal-then-empty': [[], []],
-        'single-then-all': [a, b, cc], 'normal-then-no-clients': []}.get(pattern, [b, cc])
+        'single-then-all': [a, b, cc], 'normal-then-no-clients': [], 'uneven': [[5], cc, [4]]}.get(pattern, [b, cc])
   c.update({'kind': 'algo', 'pattern': pattern, 'rounds': [r1, r2]})
   del c['geos'], c['split']
   return c
@@ -174,6 +175,8 @@ def generate(tier, rng):
     for pattern in ALGO_PATTERNS + ([] if tier == 'quick' else ALGO_PATTERNS_MORE):
       for reg in (False, True):
         yield _algo_case(rng, pattern, reg)
+    if tier != 'quick':
+      yield _algo_case(rng, rng.choice(['normal', 'uneven', 'mixed']), 'cw')
   for rep in range(reps):
     for n in ns:
       for reg in (False, True):
